@@ -61,7 +61,10 @@ class ScriptedGen:
                 self.sc.add(op, l, "mkfile %s %s %s" % (t[1], hashlib.sha256(b).hexdigest(), hashlib.sha512(b).hexdigest()), kind=kind)
             elif op == "init":
                 self.sc.add(op, l, "init %s" % t[3], kind=kind)
+            elif kind == "mut" and op in ("commit", "upgrade"):
+                # the model needs the observed dedup choice; corpus scripts stop the model comparison here
+                self.sc.add(op, l, "stopcompare", kind=kind, **meta)
             else:
-                self.sc.add(op, l, kind="skip" if kind == "mut" and op in ("commit", "upgrade") else kind, **meta)
+                self.sc.add(op, l, kind=kind, **meta)
         self.fails = g.fails
         return self.sc
